@@ -587,3 +587,173 @@ func vBadPairsCoverTable() (int, []string) {
 //@ func Serialize
 //@   props C20
 //@   modifies anything
+
+// ---------------------------------------------------------------------------
+// bounded stand-in for the end-to-end statement of C20 (token VALUES are outside the reach
+// of the contracts above): every list of at most two tokens drawn from a pool of tricky
+// tokens is serialized and tokenized again; types and values must come back unchanged
+// (comments ignored).
+
+func vTokenPool() []Token {
+	num := func(v string, f float32, isInt bool) numberVal {
+		return numberVal{stringVal{Value: v, flag: newFlag(isInteger, isInt)}, f}
+	}
+	var pool []Token
+	for _, id := range []string{"a", "-a", "--a", "1a", "-1", "e", "E-3", "é", "a b", "a\\b", "a\nb", "_", "-", "a(", "0g", "a.b"} {
+		pool = append(pool, Ident{stringVal{Value: id}})
+		pool = append(pool, AtKeyword{stringVal{Value: id}})
+		pool = append(pool, Hash{stringVal{Value: id, flag: isIdentifier}})
+	}
+	for _, h := range []string{"1a", "0", "-", "1e3"} {
+		pool = append(pool, Hash{stringVal{Value: h}})
+	}
+	for _, u := range []string{"px", "e", "E", "e3", "E3", "e-3", "E-3", "e-x", "em", "-a", "--x", "é", "x1"} {
+		pool = append(pool, Dimension{u, num("4", 4, true)})
+		pool = append(pool, Dimension{u, num("1.5", 1.5, false)})
+	}
+	pool = append(pool, Number{num("5", 5, true)}, Number{num("-5", -5, true)}, Number{num("+5", 5, true)}, Number{num(".5", .5, false)}, Number{num("1e3", 1000, false)})
+	pool = append(pool, Percentage{num("5", 5, true)})
+	for _, s := range []string{"", "a", "\"", "\\", "a\nb", "'", "é", "\x01", "a\\"} {
+		pool = append(pool, String{stringVal{Value: s}})
+		pool = append(pool, URL{stringVal{Value: s}})
+	}
+	for _, l := range []string{"-", "+", ".", "#", "@", "%", "/", "*", "|", "~", "^", "$", "=", "<", ">", ":", ";", ",", "!", "&", "?", "<!--", "-->", "||", "~=", "|=", "^=", "$=", "*="} {
+		pool = append(pool, Literal{stringVal{Value: l}})
+	}
+	pool = append(pool, Whitespace{stringVal{Value: " "}}, Whitespace{stringVal{Value: "\n"}})
+	pool = append(pool, UnicodeRange{Start: 0x10, End: 0x10}, UnicodeRange{Start: 0x10, End: 0x2f})
+	pool = append(pool, ParenthesesBlock{Arguments: []Token{Ident{stringVal{Value: "a"}}}}, SquareBracketsBlock{}, CurlyBracketsBlock{})
+	pool = append(pool, FunctionBlock{Name: "f", listVal: listVal{Arguments: []Token{Number{num("1", 1, true)}}}}, FunctionBlock{Name: "1f"})
+	return pool
+}
+
+// vSameTokens compares two token lists ignoring positions and comments.
+func vSameTokens(a, b []Token) bool {
+	strip := func(l []Token) []Token {
+		var out []Token
+		for _, t := range l {
+			if _, ok := t.(Comment); !ok {
+				out = append(out, t)
+			}
+		}
+		return out
+	}
+	a, b = strip(a), strip(b)
+	if len(a) != len(b) {
+		return false
+	}
+	for i := range a {
+		if !vSameToken(a[i], b[i]) {
+			return false
+		}
+	}
+	return true
+}
+
+func vSameToken(x, y Token) bool {
+	if x.Kind() != y.Kind() {
+		return false
+	}
+	switch x := x.(type) {
+	case Ident:
+		return x.Value == y.(Ident).Value
+	case AtKeyword:
+		return x.Value == y.(AtKeyword).Value
+	case Hash:
+		return x.Value == y.(Hash).Value && x.isIdentifier() == y.(Hash).isIdentifier()
+	case String:
+		return x.Value == y.(String).Value
+	case URL:
+		return x.Value == y.(URL).Value
+	case Literal:
+		return x.Value == y.(Literal).Value
+	case Whitespace:
+		return true
+	case Number:
+		return x.Value == y.(Number).Value && x.IsInt() == y.(Number).IsInt()
+	case Percentage:
+		return x.Value == y.(Percentage).Value && x.IsInt() == y.(Percentage).IsInt()
+	case Dimension:
+		return x.Value == y.(Dimension).Value && x.Unit == y.(Dimension).Unit && x.IsInt() == y.(Dimension).IsInt()
+	case UnicodeRange:
+		return x.Start == y.(UnicodeRange).Start && x.End == y.(UnicodeRange).End
+	case ParenthesesBlock:
+		return vSameTokens(x.Arguments, y.(ParenthesesBlock).Arguments)
+	case SquareBracketsBlock:
+		return vSameTokens(x.Arguments, y.(SquareBracketsBlock).Arguments)
+	case CurlyBracketsBlock:
+		return vSameTokens(x.Arguments, y.(CurlyBracketsBlock).Arguments)
+	case FunctionBlock:
+		return x.Name == y.(FunctionBlock).Name && vSameTokens(x.Arguments, y.(FunctionBlock).Arguments)
+	}
+	return true
+}
+
+// a token is representable when it can come out of the tokenizer at all (a hash that is
+// not an identifier must still be a name, an ident must would-start-an-identifier, ...);
+// the enumerator only keeps tokens that survive a first round trip on their own.
+func vRoundTripPairs() (int, []string) {
+	pool := vTokenPool()
+	var ok []Token
+	n := 0
+	var fails []string
+	for _, t := range pool {
+		n++
+		s := Serialize([]Token{t})
+		if vSameTokens(Tokenize([]byte(s), false), []Token{t}) {
+			ok = append(ok, t)
+		} else if vTokenizable(t) {
+			fails = append(fails, "single:"+s)
+		}
+	}
+	for _, a := range ok {
+		for _, b := range ok {
+			n++
+			if _, isWs := a.(Whitespace); isWs {
+				if _, isWs2 := b.(Whitespace); isWs2 {
+					continue // two whitespace tokens legitimately merge
+				}
+			}
+			s := Serialize([]Token{a, b})
+			if !vSameTokens(Tokenize([]byte(s), false), []Token{a, b}) {
+				fails = append(fails, "pair:"+vType(a)+"+"+vType(b)+":"+s)
+			}
+		}
+	}
+	return n, fails
+}
+
+func vType(t Token) string {
+	if l, ok := t.(Literal); ok {
+		return "'" + l.Value + "'"
+	}
+	return t.Kind().String()
+}
+
+// vTokenizable: the token value is one the tokenizer can produce (so it must round-trip)
+func vTokenizable(t Token) bool {
+	isName := func(s string) bool {
+		for _, c := range s {
+			if c == 0 {
+				return false
+			}
+		}
+		return s != ""
+	}
+	switch t := t.(type) {
+	case Ident:
+		return isName(t.Value)
+	case AtKeyword:
+		return isName(t.Value)
+	case Hash:
+		return isName(t.Value) && !t.isIdentifier() // flagged identifiers need an ident-start value
+	case Dimension:
+		return isName(t.Unit)
+	case String, URL, Number, Percentage, Literal, FunctionBlock:
+		return true
+	}
+	return true
+}
+
+//@ bounded vRoundTripPairs every single token and every ordered pair of a pool of ~170 tricky tokens (identifiers with digits, dashes, escapes, exponent-like units, quotes, non-printables, all delimiters) round-trips through Serialize and Tokenize
+//@   props C20
